@@ -15,6 +15,11 @@ fn contains(h: &[u8], n: &[u8]) -> bool {
 }
 
 pub fn generate(seed: u64, tier: &str, sink: &mut Sink) {
+    generate_sel(seed, tier, sink, false)
+}
+
+/// `only_refusal_bodies`: just the refusal bodies around and far beyond the cap (used by C05)
+pub fn generate_sel(seed: u64, tier: &str, sink: &mut Sink, only_refusal_bodies: bool) {
     let mut rng = Rng::new(seed ^ 0xC12);
     let thorough = tier == "thorough";
     let origins = [("origin.test", None, "origin.test", 443u16), ("Origin.Test", Some(8443u16), "origin.test", 8443), ("10.1.2.3", None, "10.1.2.3", 443), ("[2001:db8::7]", Some(444), "[2001:db8::7]", 444)];
@@ -136,6 +141,17 @@ pub fn generate(seed: u64, tier: &str, sink: &mut Sink) {
             oracle: o,
         });
     };
+    if only_refusal_bodies {
+        for len in [cap - 1, cap, cap + 1, 3 * cap, 1 << 20, 4 << 20] {
+            let body: Vec<u8> = (0..len).map(|i| (i % 251) as u8).collect();
+            for one in [true, false] {
+                run(403, b"HTTP/1.1 403 Forbidden\r\n\r\n".to_vec(), "valid", body.clone(), 0, 0, one, &mut rng, sink);
+            }
+            // head and the start of the body in the same network read
+            run(502, b"HTTP/1.1 502 Bad Gateway\r\nX: y\r\n\r\n".to_vec(), "valid", body.clone(), 1, 1, true, &mut rng, sink);
+        }
+        return;
+    }
     // all statuses 100..599 with a small body (one origin/proxy combination each, rotating)
     let step = if thorough { 1 } else { 7 };
     let mut k = 0;
